@@ -15,7 +15,7 @@
 (* fail (non-vacuity, see notes/C24.md).                                   *)
 (***************************************************************************)
 EXTENDS WriteGate, TLC, Json, IOUtils, Sequences, SequencesExt
-CONSTANTS NReq, MaxSet, DoneOnFailedStart, CaseLen, CaseReq, CaseMaxSet
+CONSTANTS NReq, MaxSet, DoneOnFailedStart, WithLimits, CaseLen, CaseReq, CaseMaxSet, CaseLenReject
 
 Reqs == 1..NReq
 
@@ -23,19 +23,23 @@ VARIABLES pc,         \* request -> state
           slots,      \* occupancy of the gate's channel
           cancelled,  \* request -> the client gave up (request context done)
           max,        \* configured maximum write concurrency (chosen at Init)
+          overLimit,  \* request -> it exceeds a request limit (size / series / samples, or the tenant's
+                      \* head-series limit): the limiters are consulted AFTER the gate admitted the
+                      \* request, which is then answered 413 / 429 and releases its slot without any work
           panicked    \* Done was called on an empty gate
-vars == <<pc, slots, cancelled, max, panicked>>
+vars == <<pc, slots, cancelled, max, overLimit, panicked>>
 
 Init == /\ pc = [r \in Reqs |-> "idle"]
         /\ slots = 0
         /\ cancelled = [r \in Reqs |-> FALSE]
         /\ max \in MaxSet
+        /\ overLimit \in (IF WithLimits THEN [Reqs -> BOOLEAN] ELSE {[r \in Reqs |-> FALSE]})
         /\ panicked = FALSE
 
 (* The client sends the request; the handler calls Start.  *)
 Arrive(r) == /\ pc[r] = "idle"
              /\ pc' = [pc EXCEPT ![r] = "waiting"]
-             /\ UNCHANGED <<slots, cancelled, max, panicked>>
+             /\ UNCHANGED <<slots, cancelled, max, overLimit, panicked>>
 
 (* Start's select takes the channel-send branch (possible even when the context is already   *)
 (* done: Go chooses among ready branches at random).                                          *)
@@ -43,20 +47,20 @@ Admit(r) == /\ pc[r] = "waiting"
             /\ CanAdmit(slots, max)
             /\ slots' = slots + 1
             /\ pc' = [pc EXCEPT ![r] = "running"]
-            /\ UNCHANGED <<cancelled, max, panicked>>
+            /\ UNCHANGED <<cancelled, max, overLimit, panicked>>
 
 (* The client gives up (closes the connection): the request context is cancelled.  While     *)
 (* running this has no effect on the gate (the forward uses its own context).                *)
 Cancel(r) == /\ pc[r] \in {"waiting", "running"}
              /\ ~cancelled[r]
              /\ cancelled' = [cancelled EXCEPT ![r] = TRUE]
-             /\ UNCHANGED <<pc, slots, max, panicked>>
+             /\ UNCHANGED <<pc, slots, max, overLimit, panicked>>
 
 (* Start's select takes the ctx.Done branch and returns the error.  *)
 StartFails(r) == /\ pc[r] = "waiting"
                  /\ cancelled[r]
                  /\ pc' = [pc EXCEPT ![r] = "failed"]
-                 /\ UNCHANGED <<slots, cancelled, max, panicked>>
+                 /\ UNCHANGED <<slots, cancelled, max, overLimit, panicked>>
 
 (* The failed request writes its 500 and returns; deferred calls run.  *)
 FailedReturns(r) ==
@@ -66,16 +70,23 @@ FailedReturns(r) ==
          THEN /\ slots' = AfterDone(slots)
               /\ panicked' = (panicked \/ DonePanics(slots))
          ELSE UNCHANGED <<slots, panicked>>
-    /\ UNCHANGED <<cancelled, max>>
+    /\ UNCHANGED <<cancelled, max, overLimit>>
+
+(* An admitted request that exceeds a limit is refused (413 / 429); the deferred Done releases its slot. *)
+Refused(r) == /\ pc[r] = "running" /\ overLimit[r]
+              /\ pc' = [pc EXCEPT ![r] = "done"]
+              /\ slots' = AfterDone(slots)
+              /\ panicked' = (panicked \/ DonePanics(slots))
+              /\ UNCHANGED <<cancelled, max, overLimit>>
 
 (* An admitted request finishes; the deferred Done releases its slot.  *)
-Finish(r) == /\ pc[r] = "running"
+Finish(r) == /\ pc[r] = "running" /\ ~overLimit[r]
              /\ pc' = [pc EXCEPT ![r] = "done"]
              /\ slots' = AfterDone(slots)
              /\ panicked' = (panicked \/ DonePanics(slots))
-             /\ UNCHANGED <<cancelled, max>>
+             /\ UNCHANGED <<cancelled, max, overLimit>>
 
-Next == \E r \in Reqs : Arrive(r) \/ Admit(r) \/ Cancel(r) \/ StartFails(r) \/ FailedReturns(r) \/ Finish(r)
+Next == \E r \in Reqs : Arrive(r) \/ Admit(r) \/ Cancel(r) \/ StartFails(r) \/ FailedReturns(r) \/ Refused(r) \/ Finish(r)
 
 (* Fairness: the server side makes progress; clients are free to never send / never cancel. *)
 (* A cancelled waiting request may be admitted or fail; an uncancelled one must be admitted  *)
@@ -83,6 +94,7 @@ Next == \E r \in Reqs : Arrive(r) \/ Admit(r) \/ Cancel(r) \/ StartFails(r) \/ F
 Spec == Init /\ [][Next]_vars
         /\ \A r \in Reqs : /\ WF_vars(Admit(r) \/ StartFails(r))
                            /\ WF_vars(FailedReturns(r))
+                           /\ WF_vars(Refused(r))
                            /\ WF_vars(Finish(r))
 
 (* ---------------- C24 ---------------- *)
@@ -111,5 +123,10 @@ Gen(n) == IF n = 0 THEN {<<>>}
                P \cup UNION { { Append(s, o) : o \in { x \in DriverOps : OpOk(s, x) } } : s \in { p \in P : Len(p) = n - 1 } }
 (* only scripts that can tell something: at least max+1 arrivals *)
 CaseSet == { [max |-> m, ops |-> s] : m \in CaseMaxSet, s \in { x \in Gen(CaseLen) : Cardinality(ArrivedIn(x)) > 1 } }
-ASSUME ndJsonSerialize(CasesFile, SetToSeq({ c \in CaseSet : Cardinality(ArrivedIn(c.ops)) > c.max }))
+(* scripts in which one request exceeds a request limit (the harness picks size or series count) *)
+RejectCaseSet == { [max |-> m, ops |-> s, reject |-> <<r>>] : m \in CaseMaxSet,
+                     s \in { x \in Gen(CaseLenReject) : Cardinality(ArrivedIn(x)) > 1 }, r \in 1..CaseReq }
+ASSUME ndJsonSerialize(CasesFile,
+         SetToSeq({ [max |-> c.max, ops |-> c.ops, reject |-> <<>>] : c \in { x \in CaseSet : Cardinality(ArrivedIn(x.ops)) > x.max } }
+                  \cup { c \in RejectCaseSet : Cardinality(ArrivedIn(c.ops)) > c.max /\ c.reject[1] \in ArrivedIn(c.ops) }))
 =============================================================================
